@@ -16,6 +16,7 @@ import (
 	"io"
 	"math/big"
 	"math/rand"
+	"strings"
 	"testing"
 	"time"
 
@@ -72,6 +73,10 @@ func newIdent(t testing.TB, rng *rand.Rand) *ident {
 // underlay kinds
 var underlayKinds = []string{"ip4", "ip6", "dns4"}
 
+// allKinds adds unusually long underlays (sign data beyond 128 bytes) for the sites that
+// take any multiaddress
+var allKinds = []string{"ip4", "ip6", "dns4", "dns4long", "relayed"}
+
 func underlayOf(t testing.TB, rng *rand.Rand, kind string, id libp2ppeer.ID, withPeer bool) ma.Multiaddr {
 	var s string
 	switch kind {
@@ -79,6 +84,14 @@ func underlayOf(t testing.TB, rng *rand.Rand, kind string, id libp2ppeer.ID, wit
 		s = fmt.Sprintf("/ip4/%d.%d.%d.%d/tcp/%d", 1+rng.Intn(222), rng.Intn(256), rng.Intn(256), 1+rng.Intn(254), 1024+rng.Intn(60000))
 	case "ip6":
 		s = fmt.Sprintf("/ip6/2001:db8:%x::%x/tcp/%d", rng.Intn(65536), 1+rng.Intn(65535), 1024+rng.Intn(60000))
+	case "dns4long":
+		// unusually long host names: 40..75 characters
+		s = fmt.Sprintf("/dns4/%s.node%d.example.org/tcp/%d", strings.Repeat("x", 20+rng.Intn(36)), rng.Intn(100000), 1024+rng.Intn(60000))
+		withPeer = true
+	case "relayed":
+		// circuit address through a relay: the longest form a node advertises
+		s = fmt.Sprintf("/ip4/%d.%d.%d.%d/tcp/%d/p2p/%s/p2p-circuit", 1+rng.Intn(222), rng.Intn(256), rng.Intn(256), 1+rng.Intn(254), 1024+rng.Intn(60000), id.Pretty())
+		withPeer = true
 	default:
 		s = fmt.Sprintf("/dns4/node%d.example.org/tcp/%d", rng.Intn(100000), 1024+rng.Intn(60000))
 	}
@@ -345,7 +358,7 @@ func TestParseAddress(t *testing.T) {
 	rec := 0
 	for k := 0; k < nKeys; k++ {
 		id := newIdent(t, rng)
-		for _, kind := range underlayKinds {
+		for _, kind := range allKinds {
 			for _, nid := range networkIDs {
 				if (k+len(kind)+int(nid%7))%2 == 0 && nid != 1 { // every key: network 1; the others alternate
 					continue
